@@ -60,9 +60,15 @@ def completion_decision(ctx, r, rid):
     fn = ctx.fn("HpcSubmitter._is_complete", rid)
     cfg = ctx.cfg(fn)
     rets = [n for n in cfg.nodes if n.kind == "stmt" and isinstance(n.ast, ast.Return)]
-    if len(rets) != 1 or not isinstance(rets[0].ast.value, ast.Name):
+    named = [n for n in rets if isinstance(n.ast.value, ast.Name)]
+    if len(named) != 1:
         raise AnalysisError(rid, "_is_complete does not end in `return <flag>`")
-    var = rets[0].ast.value.id
+    var = named[0].ast.value.id
+    for n in rets:
+        # `if <flag>: return True` before the forced-completion part answers the same as falling through to `return <flag>`
+        if n is not named[0] and not (isinstance(n.ast.value, ast.Constant) and n.ast.value.value is True and any(p and f == var for f, p in guard_forms(ctx, fn, n))):
+            raise AnalysisError(rid, f"_is_complete has an early `{ctx.src(n.ast)}` that is not `if <flag>: return True`")
+    rets = named
     defs = [n for n in cfg.nodes if n.kind == "stmt" and isinstance(n.ast, ast.Assign) and ctx.src(n.ast.targets[0]) == var]
     base = [n for n in defs if isinstance(n.ast.value, ast.Call) and ctx.cg.site_of(fn, n.ast.value) is not None and ctx.cg.site_of(fn, n.ast.value).calls_short(ctx.ix, "Cluster.are_all_jobs_complete")]
     forced = [n for n in defs if isinstance(n.ast.value, ast.Constant) and n.ast.value.value is True]
